@@ -79,6 +79,19 @@ def balance_violations(out: Outcome, txs: List[model.Tx], dump: Dict[str, Any], 
     lots_total = sum((t.crypto_in for t in txs if t.is_lot and (to_date is None or t.day <= to_date)), Fraction(0))
     consumed = sum((f["amount"] for f in dump["fractions"] if f["lot"] is not None and (to_date is None or by_row[f["ev"]].day <= to_date)), Fraction(0))
     total_final = sum((b["final"] for b in dump["balances"]), Fraction(0))
+    if "ins" in dump and dump["ins"]:
+        # the same identity through the other place where rp2 reports what is left in a lot: the sold percentage of each
+        # acquisition (In-Flow 'Sent/Sold' column, open positions)
+        sold_by_row = {entry["row"]: entry["sold_pct"] for entry in dump["ins"]}
+        lots_upto = [t for t in txs if t.is_lot and (to_date is None or t.day <= to_date)]
+        if all(t.row in sold_by_row for t in lots_upto):
+            unsold = sum((t.crypto_in * (1 - sold_by_row[t.row]) for t in lots_upto), Fraction(0))
+            if abs(unsold - total_final) > dump.get("ins_rel", Fraction(1, 10**18)) * max(lots_total, Fraction(1)):
+                out.fail(
+                    "balances_do_not_reconcile_with_sold_percentages",
+                    f"sum of final balances = {total_final}; by the sold percentages of the acquisitions up to {to_date} the lots still hold {unsold} (acquired {lots_total})",
+                )
+                return
     if total_final != lots_total - consumed:
         out.fail(
             "balances_do_not_reconcile_with_lots",
